@@ -345,7 +345,7 @@ Ltac evalcmp := repeat match goal with
 
 (** The state that is RETURNED after a success is within the accuracy provided normalizeQuaternions leaves the
     position-error norm alone (the code's design assumption) ... *)
-Lemma projQ_success_state_within_tol_partial (o : Opts (T:=R)) hasQuats pentry qentry nrm back qchg qn pAfter :
+Lemma projQ_success_state_within_tol_partial (o : @Opts R) hasQuats pentry qentry nrm back qchg qn pAfter :
   let r := projectQ ROps o hasQuats pentry qentry nrm back qchg qn in
   0 <= o_acc o -> (hasQuats = false -> qentry = 0) -> (r_quatNormalized r = true -> pAfter = r_pnorm r) ->
   r_status r = Succeeded -> true_pnorm r pAfter <= o_acc o /\ r_qnorm r <= o_acc o.
